@@ -21,6 +21,8 @@ class Ctx(object):
         self.config = config
         self._cfg = {}
         self._facts = {}
+        self._hsum = {}
+        self._pbind = {}
         self.obligations = []     # dicts
         self.minimums = {}        # rule -> frozen minimum instance count
         self.notes = []
@@ -37,8 +39,91 @@ class Ctx(object):
     def facts(self, fn):
         k = id(fn)
         if k not in self._facts:
-            self._facts[k] = FactEngine(self.cfg(fn), fn['_u'])
+            self._facts[k] = FactEngine(self.cfg(fn), fn['_u'], helper_summaries=self._helper_summary,
+                                        param_bindings=self._param_bindings(fn))
         return self._facts[k]
+
+    def scope(self, fn, depth=3):
+        """fn and the internal-linkage helpers it calls (transitively): the code a maintainer may have
+        split the function into.  [(unit, decl)] with fn first."""
+        from .lock import is_internal
+        from .callgraph import fkey
+        out = [(fn['_u'], fn)]
+        seen = {id(fn)}
+        frontier = [fn]
+        for _ in range(depth):
+            nxt = []
+            for f in frontier:
+                for (kind, t, site) in self.G.edges.get(fkey(f), ()):
+                    if kind in ('direct', 'lambda') and t in self.G.defs:
+                        u2, f2 = self.G.defs[t]
+                        if id(f2) not in seen and (is_internal(f2) or kind == 'lambda'):
+                            seen.add(id(f2))
+                            out.append((u2, f2))
+                            nxt.append(f2)
+            frontier = nxt
+        return out
+
+    def _param_bindings(self, fn):
+        """{parameter id: key} for an internal-linkage helper all of whose call sites pass the same value
+        (by identification key in the caller) for that parameter."""
+        from .lock import is_internal
+        from .callgraph import fkey
+        from .frontend import params_of
+        from .expr import call_args
+        k = id(fn)
+        if k in self._pbind:
+            return self._pbind[k]
+        self._pbind[k] = {}
+        if not is_internal(fn):
+            return {}
+        me = fkey(fn)
+        sites = []
+        for ck, es in self.G.edges.items():
+            for (kind, t, site) in es:
+                if kind == 'direct' and t == me and ck in self.G.defs and ck != me:
+                    sites.append((self.G.defs[ck][1], site))
+        ps = params_of(fn)
+        out = {}
+        if sites:
+            for i, p in enumerate(ps):
+                keys = set()
+                for (cf, site) in sites:
+                    args = call_args(site)
+                    if i >= len(args):
+                        keys.add(None)
+                        continue
+                    keys.add(self.facts(cf).ident_key(args[i]))
+                if len(keys) == 1 and None not in keys:
+                    kk = list(keys)[0]
+                    if '?' not in kk:
+                        out[p['id']] = kk
+        self._pbind[k] = out
+        return out
+
+    def _helper_summary(self, decl):
+        """(parameter keys, return cases) of a small internal-linkage predicate, for FactEngine."""
+        from .lock import is_internal
+        from .frontend import params_of, walk, dtype, qtype
+        ks = self.G.resolve_decl(decl)
+        if len(ks) != 1:
+            return None
+        if ks[0] in self._hsum:
+            return self._hsum[ks[0]]
+        u, f = self.G.defs[ks[0]]
+        r = None
+        self._hsum[ks[0]] = None          # (recursion guard)
+        rt = qtype(f).split('(')[0].strip()
+        if is_internal(f) and rt == 'bool' and len(list(walk(f))) < 300:
+            F = self.facts(f)
+            g = self.cfg(f)
+            cases = []
+            for rn in g.returns:
+                cases += F.return_cases(rn)
+            ps = ['%s#%s' % (p.get('name'), p.get('id')) for p in params_of(f)]
+            r = (ps, cases)
+        self._hsum[ks[0]] = r
+        return r
 
     def fn(self, qualified, param_substr=None):
         """(unit, decl) of the single definition of a function (anchor)."""
@@ -53,6 +138,19 @@ class Ctx(object):
     def bad(self, rule, instance, where, why, construct=None, path=None):
         self.obligations.append(dict(rule=rule, instance=instance, where=_w(where), status='violated',
                                      detail=why, construct=construct or instance, path=path or []))
+
+    def unknown(self, rule, instance, where, why, construct=None):
+        """The rule could not recognise the construct it has to judge (its engine returned no value): neither
+        holds nor violated.  The run ends as analysis-broken (exit 2) unless a real violation is found."""
+        self.obligations.append(dict(rule=rule, instance=instance, where=_w(where), status='unrecognised',
+                                     detail=why, construct=construct or instance))
+
+    def check3(self, cond, rule, instance, where, why, construct=None, detail='', path=None, unknown_why=None):
+        """Three-valued check: cond None = not decidable by the engine on this form of the code."""
+        if cond is None:
+            self.unknown(rule, instance, where, unknown_why or ('not decidable on this form of the code: ' + why), construct)
+            return None
+        return self.check(cond, rule, instance, where, why, construct, detail, path)
 
     def check(self, cond, rule, instance, where, why, construct=None, detail='', path=None):
         if cond:
